@@ -57,6 +57,25 @@ PLANS.update({
     "C17": _logix("C17", "exploration", 800, 16000, directed=True),
 })
 
+PLANS["C10"] = {
+    "level": "fault_enumeration",
+    "parts": [("lifecycle", "directed", None, None), ("lifecycle", "gen", 4000, 80000)],
+    "budget_s": {"quick": 120, "thorough": 1200},
+    "rule": ("scenario = driver class (LogixDriver/CIPDriver) x target policy {large FO ok, large refused, all refused, session "
+             "refused, forward close refused} x call history over open/close/read/write/generic(connected|unconnected|"
+             "unconnected_send)/with-ok/with-raise/idle x fault plan; directed part: for short histories the fault-free run plus "
+             "EVERY single-fault position (k-th client message / k-th reply frame of every call, kinds EPIPE/RST/send-timeout and "
+             "FIN/RST/stall; thorough: also mid-frame bytes 1 and 24); random part: 1 (quick) to 3 (thorough) faults at positions of "
+             "the fault-free twin, plus connect/DNS/close faults; every run ends with the epilogue close(); open(); use; close() "
+             "after the faults stopped. distinct = distinct (op kind, outcome class, fault fired) sequences"),
+    "real": LOGIX_REAL, "stub": LOGIX_STUB,
+    "want_probes": [],
+    "assumptions": ["fatal faults kill the TCP connection for good; the target drops the session bound to it but keeps CIP "
+                    "connections until their timeout (CIP Vol 2: connections time out, they are not closed by a TCP close)",
+                    "sessions in which a fault fired are exempt from the target-side part of I3 (DESIGN 6 C10)",
+                    "no data-value oracle under faults (a stale reply after a transient fault is outside the statement)"],
+}
+
 
 def plan_for(prop, tier):
     p = PLANS.get(prop)
